@@ -21,6 +21,11 @@ var c18Exprs = []string{
 	// the same attribute operator in its plain (=, right side relative to the root) and relative (|=) flavour
 	".[0] tag = (. | tag)", ".[1] tag |= \"!!str\"", ".[0] tag |= (. | tag)", ".[0] style = (. | style)", ".[1] style |= \"double\"", ".[0] anchor |= \"x\"", ".[0] anchor = (.[1] | tostring)",
 	".[0] line_comment = (.[1] | tostring)", ".[1] line_comment |= \"c\"", ".[0] head_comment = (.[1] | tostring)", ".[1] head_comment |= \"c\"",
+	// parameters computed from the data: anything an operator keeps from one evaluation (a compiled pattern, a parsed
+	// sub-expression, an index) must not leak into the next evaluation of the same tree
+	".[0] as $p | [.[] | tostring | test(\"^\\($p)\")]", "[.[] | tostring | sub(\"\\(.)\"; \"x\")]", "(.[1] | tostring) as $s | [.[] | tostring | capture(\"(?P<d>\\($s))\") | .d]",
+	"[.[] | tostring | match(\"\\(.)\") | .string]", ".[.[2]]", "pick([.[2]])", "[.[] | has(0)]", "sort_by(. % 2)", "group_by(. > 1)", "(.[0] | tostring) as $k | {$k: 1}", "with(.[0]; . = 5)",
+	"eval(\".[\" + (.[2] | tostring) + \"]\")", "[.[] | tostring | split(\"\\(.)\") | length]", "map(tostring) | join(\"\\(.[0])\")", "[.[] | tostring | test(\"[\\(.)]\")]",
 }
 
 func c18Doc(a, b string) *CandidateNode {
@@ -39,14 +44,41 @@ func VerifC18History() {
 	InitExpressionParser()
 	i1 := verifChoice("e1", len(c18Exprs))
 	i2 := verifChoice("e2", len(c18Exprs))
-	reuse := verifChoice("reuseParsedTree", 2) == 1
-	a1, b1 := verifStrN("a1", 1, vDigits()), verifStrN("b1", 1, vDigits())
-	a2, b2 := verifStrN("a2", 1, vDigits()), verifStrN("b2", 1, vDigits())
+	reuseMode := verifChoice("reuseParsedTree", 3)
+	reuse := reuseMode >= 1
+	// the expressions whose parameters are computed from the data are paired with the identity and with themselves only
+	dataDependent := func(i int) bool {
+		return strings.Contains(c18Exprs[i], "\\(") || i >= len(c18Exprs)-15
+	}
+	if dataDependent(i1) && i1 != i2 {
+		return
+	}
+	if dataDependent(i2) && i1 != 0 && i1 != i2 {
+		return
+	}
+	digit := func(name string) string {
+		// expressions that build a regular expression from the data get concrete digits (patterns are compiled natively)
+		if strings.Contains(c18Exprs[i1], "\\(") || strings.Contains(c18Exprs[i2], "\\(") {
+			return []string{"1", "2"}[verifChoice(name, 2)]
+		}
+		return verifStrN(name, 1, vDigits())
+	}
+	a1, b1 := digit("a1"), digit("b1")
+	a2, b2 := digit("a2"), digit("b2")
 	label := "e2=" + c18Exprs[i2]
 	tree2 := vParse(c18Exprs[i2])
 	fresh, okFresh := c18Run(tree2, a2, b2)
 	// the history: another expression parsed with the same parser and evaluated with the same operator table
 	tree1 := vParse(c18Exprs[i1])
+	if reuseMode == 2 {
+		// the history is an evaluation of the very same parsed tree on another document (what the stream evaluator does
+		// for every document of every file); the fresh result above came from a tree of its own
+		if i1 != 0 {
+			return
+		}
+		tree2 = vParse(c18Exprs[i2])
+		tree1 = tree2
+	}
 	_, _ = c18Run(tree1, a1, b1)
 	// again
 	if !reuse {
@@ -58,6 +90,9 @@ func VerifC18History() {
 	mode := " reparsed"
 	if reuse {
 		mode = " same-tree"
+	}
+	if reuseMode == 2 {
+		mode = " same-tree-after-another-document"
 	}
 	verifAssert(okFresh == okAgain && verifEqStr(fresh, again), "C18/result-depends-on-history "+label+mode)
 	verifCover("C18/history/end")
